@@ -285,4 +285,13 @@ def _child_replay(case):
 
 
 def main_for(check_cls):
-    sys.exit(run_check(check_cls()))
+    try:
+        rc = run_check(check_cls())
+    except SystemExit:
+        raise
+    except BaseException as ex:   # a bug in the machinery must never look like a verdict
+        import traceback
+        traceback.print_exc()
+        print(f"HARNESS-ERROR {check_cls.pid}: {type(ex).__name__}: {ex}")
+        rc = 2
+    sys.exit(rc)
